@@ -15,18 +15,19 @@ PROVED here, of the reference semantics, for every data set and every pattern:
   * `monotone`, `monotone_multiset`: without OPTIONAL, adding triples never removes a solution (nor
     lowers its multiplicity);
   * `total_order_one_sequence`: ORDER BY keys that are a total order on the rows at hand give one
-    sequence, whatever order the rows arrive in.
-NOT proved (`clause_order_partial`): invariance under permuting the clauses of a pattern without
-OPTIONAL is stated for the implementation, the model and the reference semantics by the metamorphic
-runs only; the theorem proved is the one-clause core (a join step commutes with reordering its input
-rows).
+    sequence, whatever order the rows arrive in;
+  * `clause_order_invariant`: for every permutation of the clauses of a pattern without OPTIONAL (and
+    without predicates bounded by another clause's bindings, whose meaning includes the order), the
+    result rows — any selection of bindings, anchors as instants — are the same multiset; the core
+    is that two join steps commute (`two_steps_commute`).
 -/
 import BW.Proofs.Query
 import BW.Proofs.Rename
 import BW.Proofs.Determinism
+import BW.Proofs.ClauseOrder
 
 namespace BW.Props.C14
-open BW.Model BW.Spec BW.Proofs.Query BW.Proofs.Rename BW.Proofs.Determinism
+open BW.Model BW.Spec BW.Proofs.Query BW.Proofs.Rename BW.Proofs.Determinism BW.Proofs.ClauseOrder
 
 /-- The triples a query scans: the contents of the graphs listed in FROM, one after the other. -/
 def scanOf (graphs : List (List Triple)) : List Triple := graphs.flatMap id
@@ -89,12 +90,25 @@ theorem total_order_one_sequence (S : Strs) (cfg : List (Bytes × Bool)) (rows r
     sortRows S cfg rows = sortRows S cfg rows' :=
   sortRows_deterministic S cfg rows rows' hp hcfg trans total anti
 
-/-- Clause order, the part that is proved: a join step does not depend on the order of the rows it
-    receives (so reordering *earlier* results never shows), and not on the order of the scan. -/
+/-- A join step does not depend on the order of the rows it receives nor on the order of the scan. -/
 theorem clause_order_partial (scan scan' : List Triple) (glo ghi : Option Int) (rows rows' : List Row) (c : Clause)
     (hr : rows.Perm rows') (hs : scan.Perm scan') :
     (joinClause scan glo ghi rows c).Perm (joinClause scan' glo ghi rows' c) :=
   (joinClause_perm_rows scan glo ghi rows rows' c hr).trans (joinClause_perm_scan scan scan' glo ghi rows' c hs)
+
+/-- Two join steps commute (up to the order of the rows and the representation of anchors). -/
+theorem two_steps_commute (scan : List Triple) (glo ghi : Option Int) (rows : List Row) (c1 c2 : Clause)
+    (h1 : Plain c1) (h2 : Plain c2) (hn : AllNodup rows) :
+    PermEq (joinClause scan glo ghi (joinClause scan glo ghi rows c1) c2)
+           (joinClause scan glo ghi (joinClause scan glo ghi rows c2) c1) :=
+  joinClause_swap scan glo ghi rows c1 c2 h1 h2 hn
+
+/-- The order in which the clauses are written does not matter: every permutation of the clause list
+    gives, for every selection `ks` of bindings, the same multiset of result rows. -/
+theorem clause_order_invariant (scan : List Triple) (glo ghi : Option Int) (cs cs' : List Clause) (hp : cs.Perm cs')
+    (hc : ∀ c ∈ cs, Plain c) (ks : List Bytes) :
+    ((solutions scan glo ghi cs).map (obs ks)).Perm ((solutions scan glo ghi cs').map (obs ks)) :=
+  solutions_clause_order scan glo ghi cs cs' hp hc ks
 
 /-! Non-vacuity. -/
 def t1 : Triple := ⟨⟨[47, 117], [97]⟩, .imm [112], .node ⟨[47, 117], [98]⟩⟩
@@ -103,6 +117,8 @@ def c1 : Clause := { sBinding := [63, 115], p := some (.imm [112]), oBinding := 
 def c2 : Clause := { sBinding := [63, 111], p := some (.imm [112]), oBinding := [63, 120] }
 example : (solutions (scanOf [[t1, t2]]) none none [c1, c2]).length = 1 := by decide
 example : (solutions (scanOf [[t2], [t1]]) none none [c1, c2]).length = 1 := by decide
+example : Plain c1 ∧ Plain c2 := ⟨⟨rfl, rfl, rfl⟩, ⟨rfl, rfl, rfl⟩⟩
+example : (solutions (scanOf [[t1, t2]]) none none [c2, c1]).length = 1 := by decide
 /-- a renaming: prefix every non-empty name with 'z'. -/
 def pre (k : Bytes) : Bytes := if k = [] then [] else 122 :: k
 theorem pre_renaming : Renaming pre := by
@@ -127,4 +143,6 @@ end BW.Props.C14
 #print axioms BW.Props.C14.monotone_multiset
 #print axioms BW.Props.C14.total_order_one_sequence
 #print axioms BW.Props.C14.clause_order_partial
+#print axioms BW.Props.C14.two_steps_commute
+#print axioms BW.Props.C14.clause_order_invariant
 #print axioms BW.Props.C14.pre_renaming
